@@ -629,6 +629,21 @@ func (x *X) doCall(op tr.Line) tr.Line {
 		}
 	case "dial":
 		out, waitRes = x.doDial(op, g, ch)
+	case "clistop":
+		// Client.Stop from a user goroutine on a client the R goroutine has already stopped
+		cli := x.ensureClient()
+		x.mu.Lock()
+		stopped := x.returned
+		x.mu.Unlock()
+		if cli == nil || !stopped {
+			x.mu.Lock()
+			x.busy[g] = false
+			x.mu.Unlock()
+			rk, th := thrU(g)
+			x.log(rk, th, false, "res", "disabled")
+			return out
+		}
+		ch <- func() { x.res(g, classOf(cli.Stop())) }
 	default:
 		x.mu.Lock()
 		x.busy[g] = false
@@ -786,7 +801,7 @@ func (x *X) doRegister(op tr.Line, g int, fn string, eng gnet.Engine, ch chan us
 // dial <li> <act> <wfail> <cact>: Client.Dial from goroutine g
 func (x *X) doDial(op tr.Line, g int, ch chan userCmd) (tr.Line, bool) {
 	out := tr.L("call", append([]string{}, op.Args...)...)
-	if x.cli == nil {
+	if x.ensureClient() == nil {
 		x.mu.Lock()
 		x.busy[g] = false
 		x.mu.Unlock()
@@ -796,6 +811,25 @@ func (x *X) doDial(op tr.Line, g int, ch chan userCmd) (tr.Line, bool) {
 	}
 	x.ensureAux()
 	h := hresOf(arg(op, 3), arg(op, 4), arg(op, 5))
+	x.mu.Lock()
+	// a client that was never started, or has been stopped, refuses the request: no connection identity is used up
+	refused := !x.booted || x.returned
+	x.mu.Unlock()
+	if refused {
+		ch <- func() {
+			var err error
+			if panicked, msg := tr.Guard(func() { _, err = x.cli.DialContext("tcp", x.aux.Addr().String(), nil) }); panicked {
+				x.fail("control-table", "client-dial-panics", msg)
+				x.res(g, "panic")
+				return
+			}
+			x.res(g, classOf(err))
+		}
+		if !x.waitFor(time.Second, func() bool { return !x.busy[g] }) {
+			x.fail("control-table", "client-dial-blocks", "Client.Dial on a client that is not running had not returned after 1 s")
+		}
+		return out, false
+	}
 	x.mu.Lock()
 	cr := x.newConnRec(h)
 	cr.tag = x.nextTag
